@@ -42,6 +42,11 @@ theorem slice_append' (g n : Nat) (x r : FrameRead.Bytes) (hn : x.length = n) (h
     slice g n (x ++ r) = .ok (x, r) := by
   subst hn; exact slice_append g x r hg
 
+theorem needBytes_ok (need : Nat) (buf : FrameRead.Bytes) (h : need ≤ buf.length) :
+    needBytes need buf = .ok ((), buf) := by
+  unfold needBytes
+  rw [if_neg (by omega)]
+
 theorem readShort_eShort (n : Nat) (r : FrameRead.Bytes) (h : n < 65536) :
     readShort (eShort n ++ r) = .ok (n, r) := by
   unfold readShort
@@ -202,7 +207,7 @@ theorem readInetAdressOnly_e (a r : FrameRead.Bytes) (h : isAddr a = true) :
   have hc : (!(a.length == 4 || a.length == 16)) = false := by
     rcases ha with h | h <;> simp [h]
   simp only [hc]
-  exact slice_append 1 a r (by omega)
+  exact slice_append a.length a r (Nat.le_refl _)
 
 theorem readInet_e (a r : FrameRead.Bytes) (p : Int) (h : isAddr a = true) (hp : isInt32 p = true) :
     readInet (eInet a p ++ r) = .ok ((a, p), r) := by
